@@ -211,7 +211,16 @@ func (ch c03) framing(c *core.Ctx, env *hs.Env, rng *core.Rng, idx int) {
 	shape := ""
 	for i := 0; i < n; i++ {
 		var m []byte
-		switch k := rng.Intn(12); k {
+		switch k := rng.Intn(13); k {
+		case 12: // a failing extended message, then - while the server skips until Sync - an oversized message whose body is made of well-formed messages
+			m = core.Pick(rng, [][]byte{pg.Execute("nosuch", 7), pg.Describe('P', "nosuch"), pg.Bind("p", "nosuch", nil, nil, nil)})
+			inner := append(pg.Sync(), pg.Query("smuggled inside an oversized message")...)
+			var body []byte
+			for target := L + 1 + rng.Intn(L); len(body) < target; {
+				body = append(body, inner...)
+			}
+			m = append(m, pg.Raw(core.Pick(rng, []byte("QPBDEdp~")), body)...)
+			shape += "eO"
 		case 11: // an oversized message (any type) while a COPY-in is running: skipped once, in full; the COPY ends with an error
 			q := fmt.Sprintf("fcopy%d.%d.%d", c.Batch, idx, i)
 			progs[q] = &hs.Prog{Stmts: []*hs.Stmt{{ID: "fcopy", Cols: textCols(1), Params: []oid.Oid{}, Ops: []hs.Op{{K: "copy", Copy: &hs.CopyPlan{Format: wire.TextFormat, MaxReads: -1, OnErr: "propagate"}}}}}}
